@@ -275,6 +275,8 @@ def conv_cases(rng, tier):
         b64 = bytes(rng.choice([0, 0xFF, 0x80, 0x7F, rng.randrange(256)]) for _ in range(64))
         cases.append("conv w4 " + hx(b32))
         cases.append("conv w8 " + hx(b64))
+        cases.append("conv ca_w4 " + hx(b32))
+        cases.append("conv sig65 " + hx(b64 + bytes([rng.choice([0, 1, 3, 27, 255, rng.randrange(256)])])))
         ws4 = [rng.choice(words) for _ in range(4)]
         ws8 = [rng.choice(words) for _ in range(8)]
         cases.append("conv u32 " + L(ws4))
